@@ -71,16 +71,35 @@ def selftest_tools() -> int:
     return 0 if ok else 3
 
 
+class _WallClock(Exception):
+    pass
+
+
+def _alarm(signum, frame):
+    raise _WallClock()
+
+
 def _verify_worker(args):
     qualname, timeout_ms, cross = args[:3]
     chunk = args[3] if len(args) > 3 else None
+    # wall-clock limit per function (chunk): a body the symbolic interpreter cannot get through (path explosion after a change) must end
+    # as "undecided", never as a check that hangs
+    import signal
+    limit = int(os.environ.get("VERIF_FUNCTION_WALL_S", "600" if timeout_ms <= 20000 else "1800"))
+    signal.signal(signal.SIGALRM, _alarm)
+    signal.alarm(limit)
     try:
         import contracts.all  # noqa
         from pyvc import verify
         return verify.verify_function(qualname, timeout_ms, cross, chunk=chunk).to_json()
+    except _WallClock:
+        return {"function": qualname, "status": "undecided", "reason": f"verification did not finish within {limit} s of wall-clock time (symbolic execution of this body does not terminate in reasonable time)",
+                "results": [], "assumed_used": [], "dropped": [], "vacuity": {}, "info": None, "variants": 0, "paths": 0}
     except Exception as e:  # noqa
         return {"function": qualname, "status": "error", "reason": f"{type(e).__name__}: {e}\n{traceback.format_exc()[-2000:]}",
                 "results": [], "assumed_used": [], "dropped": [], "vacuity": {}, "info": None, "variants": 0, "paths": 0}
+    finally:
+        signal.alarm(0)
 
 
 def _lemma_worker(args):
